@@ -9,8 +9,9 @@ from vk.paths import clean_reason
 
 PROPERTY = 'C18'
 LEVEL = 'exploration'
-RULE = ('per schema (four families x XSD 1.0/1.1) a pool of valid / faulted documents; 2-4 threads share one schema object in '
-        'four scenarios {race to build() a build=False schema then validate, validators only, mixed decode / encode / '
+RULE = ('per schema (eight families x XSD 1.0/1.1) a pool of valid / faulted documents; 2-4 threads share one schema object in '
+        'six scenarios {race to build() a build=False schema then validate, threads that arrive while the build is in progress '
+        '(released at drawn points of the builder, with and without their own build() call), validators only, mixed decode / encode / '
         'iter_errors / simple-type scratch-context calls, two threads on one shared lazy resource}; interleavings are produced '
         'by (a) a seeded yield injector: a sys.monitoring PY_START callback on library code objects that releases the GIL '
         '(sleep(0)) with probability p in {0.002, 0.02, 0.2}, and (b) free-running stress with a 1 microsecond switch '
